@@ -28,6 +28,7 @@ MCEvents ==
   \cup {Ev("SendCancels", 0, 0, "", "", "-", 0, FALSE, "-", rs, NoFilter) :
            rs \in {<<CancelReq(0, "c1", FALSE)>>, <<CancelReq(0, "c1", TRUE), CancelReq(4, "c2", FALSE)>>}}
   \cup {Ev(a, 0, 0, "", "", "-", 0, FALSE, "-", <<>>, f) : a \in {"CancelOrders", "ClosePositions"}, f \in Filters}
+  \cup {Ev("ClosePositionsCF", 0, 0, "", "", "-", 0, FALSE, "-", <<>>, f) : f \in {NoFilter, F("Exchanges", <<0>>), F("Instruments", <<0, 4>>)}}
   \cup {E0("Shutdown", 0, 0)}
 
 Links == {<<"healthy", "healthy">>, <<"healthy", "closed">>, <<"unhealthy", "healthy">>,
